@@ -360,3 +360,68 @@ def main(pid, fn, level="model_checking"):
     finally:
         run.cleanup()
     sys.exit(rc)
+
+
+# -------------------------------------------------------------------- trace validation (backward conformance)
+def _segments(lines):
+    """Split an ndjson trace into executions; every execution starts with a {"ev":"reset"} line."""
+    segs, cur = [], []
+    for ln in lines:
+        if '"ev":"reset"' in ln and cur:
+            segs.append(cur)
+            cur = []
+        cur.append(ln)
+    if cur:
+        segs.append(cur)
+    return segs
+
+
+def validate_traces(run, module, cfg_text, trace_path, name, max_rejects=8, timeout=1800, heap="4g"):
+    """TLC must accept every recorded execution as a behaviour of `module` (with every INVARIANT of the cfg
+    evaluated at every step).  Returns (n_accepted, rejected) where rejected is a list of dicts
+    {reason, at, events}.  A rejected execution is cut out and the remainder re-validated so that every
+    execution gets a verdict."""
+    with open(trace_path) as fh:
+        lines = [ln.rstrip("\n") for ln in fh if ln.strip()]
+    segs = _segments(lines)
+    total = len(segs)
+    rejected = []
+    it = 0
+    while segs:
+        it += 1
+        flat = [ln for s in segs for ln in s]
+        tf = os.path.join(run.work, "trace_%s_%d.ndjson" % (name, it))
+        with open(tf, "w") as fh:
+            fh.write("\n".join(flat) + "\n")
+        r = run.tlc(module, "trace_run.cfg", workers=1, heap=heap, timeout=timeout, deque=True,
+                    files=[(tf, "trace.ndjson")], defines={"trace_run.cfg": cfg_text}, name="%s_trace%d" % (name, it))
+        out = r["out"]
+        if r["rc"] == 0 and "REJECTED_AT" not in out:
+            break
+        at, reason = None, None
+        m = re.search(r'<<"REJECTED_AT", (\d+)>>', out)
+        inv = re.search(r"Invariant (\w+) is violated", out)
+        if inv:
+            reason = "invariant " + inv.group(1) + " violated by a recorded execution"
+            ls = re.findall(r"^/\\ l = (\d+)", out, re.M)
+            if ls:
+                at = int(ls[-1]) - 1  # the last consumed event
+        elif m:
+            at = int(m.group(1))
+            reason = "recorded event is not an enabled step of the specification"
+        if at is None:
+            tail = "\n".join(out.splitlines()[-30:])
+            raise Inconclusive("trace validation of %s failed without a verdict (rc=%d)\n%s" % (name, r["rc"], tail))
+        at = max(1, min(at, len(flat)))
+        # locate the execution containing line `at`
+        pos, idx = 0, 0
+        for i, s in enumerate(segs):
+            if pos < at <= pos + len(s):
+                idx = i
+                break
+            pos += len(s)
+        seg = segs.pop(idx)
+        rejected.append({"reason": reason, "at_event": at - pos, "events": [json.loads(x) for x in seg]})
+        if len(rejected) >= max_rejects:
+            break
+    return total - len(rejected), rejected
